@@ -163,6 +163,17 @@ func infoSnapshot(info *mcap.Info) string {
 	return string(mustJSON(s))
 }
 
+type heldIter struct {
+	it      mcap.MessageIterator
+	items   []mc.Triple
+	label   string
+	topics  []string
+	s, e    uint64
+	endOpen bool
+	order   mcap.ReadOrder
+	done    bool
+}
+
 func checkSession(prop string) func(c SessCase, st *stats.Collector) error {
 	return func(c SessCase, st *stats.Collector) error {
 		w, k := &c.W, c.K
@@ -186,6 +197,7 @@ func checkSession(prop string) func(c SessCase, st *stats.Collector) error {
 		defer rd.Close()
 		firstInfo := ""
 		history := ""
+		var held []*heldIter
 		msgReads, restricted, classes := 0, 0, []string{fmt.Sprintf("indexed=%v", indexed)}
 		getInfo := func(when string) (*mcap.Info, error) {
 			info, err := rd.Info()
@@ -306,12 +318,47 @@ func checkSession(prop string) func(c SessCase, st *stats.Collector) error {
 					if err := checkAbandoned(st, prop, label, items, all, op.Topics, s, e, endOpen, pl, order); err != nil {
 						return err
 					}
+					if indexed && op.Kind == "messages" && (i+len(op.Topics))%2 == 0 {
+						// not abandoned after all: the caller keeps this iterator and comes back to it after the other
+						// calls of the history (index-based iterators position the stream themselves for every chunk)
+						held = append(held, &heldIter{it: it, items: items, label: label, topics: op.Topics, s: s, e: e, endOpen: endOpen, order: order})
+					}
 					continue
 				}
 				if err := checkSelectionKF(st, prop, label, items, all, op.Topics, s, e, endOpen, pl, order); err != nil {
 					return err
 				}
 			}
+		}
+		// the iterators that were kept are now advanced side by side, one message each in turn, to their ends
+		for live := len(held); live > 0; {
+			live = 0
+			for _, h := range held {
+				if h.done {
+					continue
+				}
+				sc, ch, m, err := h.it.NextInto(nil)
+				if err != nil {
+					h.done = true
+					if !errors.Is(err, io.EOF) {
+						return pk.Failf("session-read", "%s, resumed after the rest of the history (%s): %v after %d items", h.label, history, err, len(h.items))
+					}
+					continue
+				}
+				live++
+				h.items = append(h.items, mc.Triple{S: mc.FromSchema(sc), C: mc.FromChannel(ch), M: mc.FromMessage(m)})
+				if len(h.items) > len(all)+5 {
+					return pk.Failf("extra", "%s, resumed: more items than the file has messages", h.label)
+				}
+			}
+		}
+		for _, h := range held {
+			if err := checkSelectionKF(st, prop, h.label+", resumed side by side with the other kept iterators after:"+history, h.items, all, h.topics, h.s, h.e, h.endOpen, pl, h.order); err != nil {
+				return err
+			}
+		}
+		if len(held) > 0 {
+			classes = append(classes, fmt.Sprintf("iterators-kept-and-resumed=%d", len(held)))
 		}
 		if _, err := getInfo("after the last call"); err != nil {
 			return err
